@@ -11,7 +11,7 @@ from vlib import common as C, e2e, sysrun as S
 from vlib.props import c01
 
 PROP = "C14"
-THEOREMS = []
+THEOREMS = ["GitAi.Sys.checkpoint_idempotent", "GitAi.Sys.granularity_checkpoints"]
 
 READONLY = [["status"], ["status", "--short"], ["log", "--oneline", "-3"], ["diff"], ["diff", "--cached", "--stat"],
             ["show", "--stat", "HEAD"], ["branch"], ["rev-parse", "HEAD"], ["ls-files"], ["log", "-1", "--format=%H"],
